@@ -420,6 +420,145 @@ def k4_order_labels(ctx):
                 calls=calls)
 
 
+# ---------------------------------------------------------------------------------------
+# K2d: LZMA2 dictionary size handed to the decoder == xz file format 5.3.1 for every property byte
+# ---------------------------------------------------------------------------------------
+
+def k2_lzma2_dict(ctx):
+    """a decoder set up with a smaller dictionary than the stream was written with rejects (or garbles)
+    members whose matches reach further back: the member would not come out as itself"""
+    import lzma as real_lzma
+    sz = _sz()
+    calls = []
+
+    class Dec:
+        def __init__(self, format, memlimit, filters):
+            calls.append((format, filters))
+
+        def decompress(self, data, max_length=-1):
+            return b"12345678"
+
+    class FakeLzma:
+        FORMAT_ALONE, FORMAT_RAW, FORMAT_XZ, FORMAT_AUTO = (real_lzma.FORMAT_ALONE, real_lzma.FORMAT_RAW,
+                                                            real_lzma.FORMAT_XZ, real_lzma.FORMAT_AUTO)
+        FILTER_LZMA2, FILTER_LZMA1 = real_lzma.FILTER_LZMA2, real_lzma.FILTER_LZMA1
+        LZMAError = real_lzma.LZMAError
+
+        @staticmethod
+        def LZMADecompressor(format=real_lzma.FORMAT_AUTO, memlimit=None, filters=None):
+            return Dec(format, memlimit, filters)
+
+    b = ctx.conc(ctx.fresh_int("prop_byte", 0, 39), 0, 39)
+    rd = object.__new__(sz.SevenZipReader)
+    with ctx.stub(sz, lzma=FakeLzma):
+        try:
+            rd._apply_decoder(sz.CODER_LZMA2, bytes([b]), b"\x01\x02", [8])
+        except Exception as e:
+            ctx.fail("lzma2-folder-raised", exc=type(e).__name__, msg=str(e)[:80], prop_byte=b)
+            return
+    ctx.require(len(calls) == 1 and calls[0][0] == real_lzma.FORMAT_RAW, "lzma2-decoder-setup", calls=repr(calls)[:120])
+    filters = calls[0][1]
+    ctx.require(isinstance(filters, list) and len(filters) == 1 and filters[0].get("id") == real_lzma.FILTER_LZMA2,
+                "lzma2-decoder-setup", filters=repr(filters)[:120])
+    # xz-file-format 5.3.1 (same encoding in 7z): 2^(b/2+12) for even b, 3*2^((b-1)/2+11) for odd b
+    spec = (1 << (b // 2 + 12)) if b % 2 == 0 else 3 * (1 << ((b - 1) // 2 + 11))
+    if ctx.perturb == "expect_power_of_two":
+        spec = 1 << (b // 2 + 12)
+    ctx.require(filters[0].get("dict_size") == spec, "lzma2-dictionary-size", prop_byte=b,
+                got=filters[0].get("dict_size"), expected=spec)
+
+
+# ---------------------------------------------------------------------------------------
+# K5: container detection on a symbolic 512-byte header == the formats' own signatures
+# ---------------------------------------------------------------------------------------
+
+class _HeaderFile:
+    """what _detect_archive_type_optimized needs from its BytesIO: seek / read of the first block"""
+
+    def __init__(self, data):
+        self.data = data
+
+    def seek(self, *a):
+        return 0
+
+    def tell(self):
+        return 0
+
+    def read(self, n=-1):
+        return self.data[:n] if n is not None and n >= 0 else self.data
+
+
+def _eqb(data, off, lit):
+    out = None
+    for i, ch in enumerate(lit):
+        c = (data[off + i] == ch)
+        out = c if out is None else (out & c)
+    return out
+
+
+def k5_detect(ctx):
+    ae = _ae()
+    n = ctx.params.get("len", 512)
+    data = ctx.fresh_bytes("h", n)
+    # reference signatures: APPNOTE 4.3.7 / 4.3.16, 7zFormat.txt, RFC 1952, bzip2 ("BZh"), xz 2.1.1.1,
+    # POSIX ustar ("ustar\0" "00") and GNU tar ("ustar  \0") at offset 257
+    refs = [("zip", 0, b"PK\x03\x04"), ("zip", 0, b"PK\x05\x06"), ("7z", 0, b"7z\xbc\xaf\x27\x1c"),
+            ("tar.gz", 0, b"\x1f\x8b\x08"), ("tar.bz2", 0, b"BZh"), ("tar.xz", 0, b"\xfd7zXZ\x00")]
+    if n >= 265:
+        refs += [("tar", 257, b"ustar\x0000"), ("tar", 257, b"ustar  \x00")]
+    which = ctx.choice("signature", len(refs))
+    kind, off, lit = refs[which]
+    ctx.assume(_eqb(data, off, lit))
+    if off:
+        # a plain tar: the block does not start with one of the other signatures
+        for k2, o2, l2 in refs:
+            if o2 == 0:
+                ctx.assume(~_eqb(data, 0, l2[:2]))
+    got = ae._detect_archive_type_optimized(_HeaderFile(data))
+    if ctx.perturb == "expect_gzip_for_all":
+        kind = "tar.gz"
+    ctx.require(got == kind, "container-not-recognised", signature=repr(lit), got=repr(got), expected=kind)
+
+
+# ---------------------------------------------------------------------------------------
+# K6: tar archives as the standard library writes them (ustar / GNU / pax x none / gz / bz2 / xz)
+# through read_archive: every member comes out, in order, with its own text
+# ---------------------------------------------------------------------------------------
+
+def k6_tar_formats(ctx):
+    import tarfile
+    ae = _ae()
+    fmt = (tarfile.USTAR_FORMAT, tarfile.GNU_FORMAT, tarfile.PAX_FORMAT)[ctx.choice("tar_format", 3)]
+    comp = ("", "gz", "bz2", "xz")[ctx.choice("compression", 4)]
+    n = 1 + ctx.choice("members_minus_1", 3)
+    long_name = ctx.flag("first_member_name_over_100_chars")
+    dir_first = ctx.flag("directory_entry_first")
+    names, texts = [], []
+    buf = io.BytesIO()
+    with tarfile.open(fileobj=buf, mode="w:" + comp, format=fmt) as tf:
+        if dir_first:
+            ti = tarfile.TarInfo("docs")
+            ti.type = tarfile.DIRTYPE
+            tf.addfile(ti)
+        for i in range(n):
+            nm = "docs/" + (("n" * 120 + "_") if (long_name and i == 0 and fmt != tarfile.USTAR_FORMAT) else "") + "m%d.txt" % i
+            body = ("member %d text Q%d" % (i, i)).encode()
+            ti = tarfile.TarInfo(nm)
+            ti.size = len(body)
+            tf.addfile(ti, io.BytesIO(body))
+            names.append(nm)
+            texts.append(body.decode())
+    if ctx.perturb == "expect_reversed" and n > 1:
+        texts = texts[::-1]
+    try:
+        res = list(ae.read_archive(io.BytesIO(buf.getvalue()), "a.tar" + ("." + comp if comp else "")))
+    except Exception as e:
+        ctx.fail("tar-archive-rejected", exc=type(e).__name__, msg=str(e)[:100], format=fmt, compression=comp)
+        return
+    got = [r.get_full_text() for r in res]
+    ctx.require(got == texts, "tar-members-differ", got=got, expected=texts, format=fmt, compression=comp)
+
+
 def _targets_k1():
     sz = _sz()
     return [sz.SevenZipReader._build_file_list, sz.SevenZipReader.extractall, sz.SevenZipReader._decompress_folder,
@@ -445,6 +584,26 @@ KERNELS = [
            perturb=[("high_bits_dropped", {"what": "number"}), ("bit_order_lsb", {"what": "bits"})],
            symbolic=["9 stream bytes (number)", "bit-vector bytes; count 0..17; all-defined byte"],
            stubs=["struct.unpack -> little-endian assembly of symbolic bytes"]),
+    Kernel("K2d", "7z LZMA2: dictionary size handed to the decoder == xz format 5.3.1, every property byte 0..39",
+           k2_lzma2_dict, targets=lambda: [_sz().SevenZipReader._apply_decoder, _sz().SevenZipReader._decompress_lzma2],
+           perturb=["expect_power_of_two"],
+           symbolic=["LZMA2 property byte (solver-enumerated, all 40 defined values)"],
+           stubs=["lzma as seen from sevenzip -> decoder recording its filter chain"],
+           outside=["property byte 40 (4 GiB - 1: the reader falls back to a preset) and invalid bytes > 40"]),
+    Kernel("K5", "container detection: a header carrying a format's own signature is routed to that format",
+           k5_detect, targets=lambda: [_ae()._detect_archive_type_optimized],
+           parts=lambda tier: [{"len": 512}, {"len": 300}],
+           perturb=[("expect_gzip_for_all", {"len": 512})],
+           symbolic=["all 512 (300) bytes of the first block"],
+           choices=["which reference signature the block carries (zip local header / empty zip, 7z, gzip, bzip2, xz, "
+                    "POSIX ustar, GNU tar)"],
+           stubs=["BytesIO -> header holder (seek/read)"],
+           outside=["old V7 tar (no magic) and blocks that carry two signatures at once"]),
+    Kernel("K6", "tar as the standard library writes it (ustar/GNU/pax x plain/gz/bz2/xz): all members, in order, own text",
+           k6_tar_formats, targets=lambda: [_ae().read_archive, _ae()._extract_from_tar_optimized],
+           strength="structure", perturb=["expect_reversed"],
+           choices=["tar header format", "compression wrapper", "1..3 members", "long first member name (GNU longname / "
+                    "pax header)", "directory entry first"]),
     Kernel("K3", "member filter: exactly the visible, supported, non-nested members are processed (shared with C09/K3)",
            lambda ctx: __import__("vf.props.c09", fromlist=["x"]).k3_skip_rules(ctx),
            targets=lambda: [_ae()._should_skip_file],
